@@ -358,6 +358,7 @@ func c20(p *model.Prog, r *report.Result) {
 		r.Ok("C20.R4", "lal|close|none", "", fmt.Sprintf("0 close() calls in %d lal functions", len(p.LalFuncs())))
 	}
 	c20Handoff(p, r)
+	c20r6(p, r)
 }
 
 // blockingUnderLock reports every blocking primitive executed while Group.mutex or
